@@ -235,15 +235,11 @@ def run(chk, facts):
 
     # 5. R-C10-4: parser facts
     try:
+        from .chain import parse_tuple_fold
         pt = syn.one_fn("parse_tuple", mod="parse::collection")
-        folds = False
-        for n in walk(pt["body"]):
-            if n.get("k") == "if":
-                c = src(n["c"])
-                if "len()" in c and "1" in c:
-                    folds = True
-        chk.ob("R-C10-4", "parse_tuple-folds-1", folds, "parse_tuple returns the sole element of `(e)` (so source parentheses exist only as tree shape)"
-               if folds else "parse_tuple no longer folds a 1-tuple: `(e)` would be printed as `(e)` = e in Python, but the premise changed - review", facts.loc_of(pt))
+        folds, why = parse_tuple_fold(syn)
+        chk.ob("R-C10-4", "parse_tuple-folds-1", folds, f"{why} (so source parentheses exist only as tree shape)"
+               if folds else f"{why}: `(e)` would be printed as `(e)` = e in Python, but the premise of the printer's parenthesis rules changed", facts.loc_of(pt))
     except AnchorError as e:
         chk.anchor_fail("R-C10-4", e)
     # a right operand on the chain level of its parent is printed bare because *the parser* nests unparenthesised chains to the right.  That
